@@ -464,8 +464,8 @@ def main_check(check: Check, tier: str, seed: int, replay: str | None, as_json: 
     # triage violations
     rc = 0
     lines = []
-    replay_dir = HOME / "replays"
-    replay_dir.mkdir(exist_ok=True)
+    replay_dir = Path(os.environ.get("VERIF_REPLAY_DIR") or HOME / "replays")
+    replay_dir.mkdir(exist_ok=True, parents=True)
     unlisted = 0
     n_unlisted = sum(1 for s in agg["violations"] if not match_known(known, pid, s))
     min_budget = (60 if tier == "quick" else 300) / max(1, n_unlisted)
@@ -516,8 +516,9 @@ def main_check(check: Check, tier: str, seed: int, replay: str | None, as_json: 
         "property_id": pid, "tier": tier, "seed": int(seed), "level": check.level, "coverage": cov,
         "assumptions": list(check.assumptions), "wall_s": round(wall, 2), "violations": int(unlisted),
     }
-    (HOME / "evidence").mkdir(exist_ok=True)
-    (HOME / "evidence" / f"{pid}.json").write_text(json.dumps(evidence, indent=1, default=_jsonable) + "\n")
+    ev_dir = Path(os.environ.get("VERIF_EVIDENCE_DIR") or HOME / "evidence")
+    ev_dir.mkdir(exist_ok=True, parents=True)
+    (ev_dir / f"{pid}.json").write_text(json.dumps(evidence, indent=1, default=_jsonable) + "\n")
 
     for ln in lines:
         print(ln)
